@@ -714,6 +714,13 @@ func (s *source) SetReadDeadline(t time.Time) error {
 
 func (s *source) SetPacketFilter(spec packets.PacketFilterSpec) error {
 	w := s.w
+	// the program is generated OUTSIDE the wire's lock, as each real capture handle does for itself: the harness must not
+	// serialise the filter generation of concurrent runs (it would hide unsynchronised shared state in it)
+	var raw []bpf.RawInstruction
+	var gerr error
+	if spec.FilterType != packets.FilterTypeNone {
+		raw, gerr = packets.VerifClassicBPF(spec)
+	}
 	w.mu.Lock()
 	defer w.mu.Unlock()
 	if s.closed > 0 {
@@ -730,9 +737,8 @@ func (s *source) SetPacketFilter(spec packets.PacketFilterSpec) error {
 		s.filter = nil
 		return nil
 	}
-	raw, err := packets.VerifClassicBPF(spec)
-	if err != nil {
-		return fmt.Errorf("SetPacketFilter failed to get BPF filter program: %w", err)
+	if gerr != nil {
+		return fmt.Errorf("SetPacketFilter failed to get BPF filter program: %w", gerr)
 	}
 	ins, _ := bpf.Disassemble(raw)
 	s.filter = ins
